@@ -71,7 +71,7 @@ PROPS["C05"] = dict(
     harness="jsgf",
     level="exploration",
     technique="property-based testing against a reference model: bounded language of the JSGF seen as a CFG (least fixpoint) vs bounded language of the compiled FSG; must-refuse classifier; weight normalisation and proportionality",
-    level_text="Generated JSGF ASTs (sequences, weighted alternatives, groups, optionals, star/plus, rule references, <NULL>, <VOID>, tags, comments, quoting, header variants; one injected recursion/refusal class) are printed with random layout and compiled; the language of the FSG up to k words must equal the CFG language in both directions; unrepresentable classes must be refused through the return value, representable ones must not; outgoing probabilities sum to one per state of the raw automaton and best-path probabilities are proportional to the written weights.",
+    level_text="Generated JSGF ASTs (sequences, weighted alternatives, groups, optionals, star/plus, rule references, <NULL>, <VOID>, tags, comments, quoting, header variants; one injected recursion/refusal class) are printed with random layout and compiled; the language of the FSG up to k words must equal the CFG language in both directions; unrepresentable classes must be refused through the return value, representable ones must not; outgoing probabilities sum to one per state of the raw automaton and best-path probabilities are proportional to the written weights. A twelfth class has embedded recursion through two rules with optional legal tail self-references around it; grammars whose expansion exceeds 1200 states are excluded and counted (known null-closure blow-up).",
     level_note="Trusted: the harness' CFG least-fixpoint enumerator and epsilon-NFA enumerator (fsa.h), logmath_exp/log (judged by C19). Bounded to k words (k chosen so that the full sentence space has <= 2500 strings); weights are only generated on alternatives (the only place JSGF defines them).",
     quick=dict(cases=900, maxlen=400, budget=90),
     thorough=dict(cases=20000, maxlen=400, budget=900),
@@ -86,7 +86,7 @@ PROPS["C13"] = dict(
     harness="fsg",
     level="exploration",
     technique="property-based testing with a harness automaton library: best-weight bounded language before/after each transformation (metamorphic), idempotence, write/read round trip with a derived tolerance",
-    level_text="Random FSGs built through the fsg_model API (duplicates, self-loops, null chains and cycles, unreachable states, start==final, probabilities log-uniform down to 1e-6, lw in {0.5,1,6.5,9.5}) are copied out through the public arc iterator; duplicate merging, closure (language, completeness for one null step, idempotence), silence/filler loops (language modulo fillers, presence, idempotence), alternates (language modulo alternate projection, parallel arcs) and write->read are compared with the harness' own epsilon-NFA computations.",
+    level_text="Random FSGs built through the fsg_model API (duplicates, self-loops, null chains and cycles, unreachable states, start==final, probabilities log-uniform down to 1e-6, lw in {0.5,1,6.5,9.5}) are copied out through the public arc iterator; duplicate merging, closure (language, completeness for one null step, idempotence), silence/filler loops (language modulo fillers, presence, idempotence), alternates (language modulo alternate projection, parallel arcs) and write->read are compared with the harness' own epsilon-NFA computations. A third of the cases draw their vocabulary from spellings that differ only in letter case.",
     level_note="Trusted: fsa.h enumerator (bounded to k words, k chosen per case), logmath_log/exp (C19). The alternate lists emulate the dictionary; the dictionary-driven path through fsg_search is exercised by the decode harness.",
     quick=dict(cases=5000, maxlen=200, budget=90),
     thorough=dict(cases=30000, maxlen=200, budget=900),
@@ -121,7 +121,7 @@ PROPS["C01"] = dict(
     harness="decode",
     level="exploration",
     technique="property-based testing with a validity predicate: the harness' own acceptor (Thompson NFA of the JSGF AST / FSG arc list / alignment chain) and a path simulation over the grammar the search holds",
-    level_text="Every generated decode's final segmentation (labels incl. fillers, alternates, null markers) must simulate a start->final path of the augmented grammar, its real words must be accepted by the harness' own acceptor of the grammar as written, the hypothesis string must equal that projection, and partial results must be prefix paths. Exploration over grammars, audio, beams, chunkings and query points.",
+    level_text="Every generated decode's final segmentation (labels incl. fillers, alternates, null markers) must simulate a start->final path of the augmented grammar, its real words must be accepted by the harness' own acceptor of the grammar as written, the hypothesis string must equal that projection, and partial results must be prefix paths. Exploration over grammars, audio, beams, chunkings and query points. FSG and alignment-text grammars may name numbered pronunciation variants explicitly; FSGs may contain two rhyming words entering one state from different states.",
     level_note="Trusted: fsa.h acceptor and the Thompson construction (jsgfgen.h), the dictionary's filler flag. Each case runs in a forked child of a process holding pristine decoders.",
     quick=dict(cases=260, maxlen=600, budget=100),
     thorough=dict(cases=6000, maxlen=600, budget=1200),
@@ -157,7 +157,7 @@ PROPS["C12"] = dict(
     harness="decode",
     level="exploration",
     technique="property-based testing with independent recomputation over the lattice: longest-path DP, exhaustive path enumeration (<= 20000 paths), long-double forward/backward with a per-link rounding bound derived from the log-add error",
-    level_text="On the lattices of generated decodes: lattice_bestpath must return a link into the end node whose score equals an independent longest-path DP and whose best_prev chain is a connected start-end path summing to that score; alpha/beta/normaliser are compared with a long-double forward-backward within a bound accumulated from 0.5 unit per log-add; posteriors <= 0 within that bound; forward and backward totals agree; N-best scores are non-increasing, the first equals the best path, each hypothesis is the word sequence and score of an enumerated start-end path and its segmentation is a chain of linked nodes.",
+    level_text="On the lattices of generated decodes: lattice_bestpath must return a link into the end node whose score equals an independent longest-path DP and whose best_prev chain is a connected start-end path summing to that score; alpha/beta/normaliser are compared with a long-double forward-backward within a bound accumulated from 0.5 unit per log-add; posteriors <= 0 within that bound; forward and backward totals agree; N-best scores are non-increasing, the first equals the best path, each hypothesis is the word sequence and score of an enumerated start-end path and its segmentation is a chain of linked nodes. On lattices with at least 3000 paths the N-best list is walked up to 6000 hypotheses (order and membership clauses), far past the search's 500-path agenda.",
     level_note="Trusted: latalg.h, libm long double. N-best is read after best-path/posterior (not interleaved: both reuse one per-node scratch field). Lattices that already violate C11's reachability invariants are skipped (labelled) and left to C11.",
     quick=dict(cases=200, maxlen=600, budget=100),
     thorough=dict(cases=6000, maxlen=600, budget=1200),
@@ -169,7 +169,7 @@ PROPS["C14"] = dict(
     harness="decode",
     level="exploration",
     technique="property-based testing with a strict RFC 8259 parser as validity oracle, allocator-size equality for the buffer clause, and field-by-field differential against the hypothesis / segmentation / alignment iterators formatted with the same %.3f",
-    level_text="decoder_result_json is requested at partial points and at the end of generated decodes, for levels 0/1/2, start offsets {0, large fractional, tiny, negative}, frame rates {100, 50, 125} and a dictionary extended with spellings containing quotes, backslashes, control characters, multi-byte UTF-8 and a 200-byte word; the text must parse as exactly one JSON object plus one newline, be exactly as long as its allocation (sanitizer allocator query), and every b/d/p/t field and nested list must equal what the iterators report.",
+    level_text="decoder_result_json is requested at partial points and at the end of generated decodes, for levels 0/1/2, start offsets {0, large fractional, tiny, negative}, frame rates {100, 50, 125} and a dictionary extended with spellings containing quotes, backslashes, control characters, multi-byte UTF-8 and a 200-byte word; the text must parse as exactly one JSON object plus one newline, be exactly as long as its allocation (sanitizer allocator query), and every b/d/p/t field and nested list must equal what the iterators report. A quarter of the cases change the frame rate of the live decoder through its configuration and decoder_reinit_feat before the utterance.",
     level_note="Trusted: json.h parser, __sanitizer_get_allocated_size, snprintf %.3f. Bytes that are not valid UTF-8 are not generated (no JSON text can carry them).",
     quick=dict(cases=400, maxlen=600, budget=100),
     thorough=dict(cases=5000, maxlen=600, budget=1200),
@@ -181,7 +181,7 @@ PROPS["C07"] = dict(
     harness="decode",
     level="exploration",
     technique="differential property-based testing: the same audio, grammar and channel-normalisation state decoded in one call (in an isolated copy of the pristine process) vs in generated chunkings / buffering modes / entry points / partial-query schedules; exact equality of the canonical result record",
-    level_text="For generated audio shorter than the live-CMN update window, the record (hypothesis, path score, every segment with frames and scores, decoder_n_frames, frames searched, full word/phone/state alignment) of a run with arbitrary chunking (down to single samples, first chunk shorter than a window, no_search chunks, float32 entry, partial hyp/seg/lattice/N-best/JSON/alignment queries in between) must be string-equal to the record of the one-call run after the same decoder_set_cmn.",
+    level_text="For generated audio shorter than the live-CMN update window, the record (hypothesis, path score, every segment with frames and scores, decoder_n_frames, frames searched, full word/phone/state alignment) of a run with arbitrary chunking (down to single samples, first chunk shorter than a window, no_search chunks, float32 entry, partial hyp/seg/lattice/N-best/JSON/alignment queries in between) must be string-equal to the record of the one-call run after the same decoder_set_cmn. A quarter of the cases put the same earlier streamed utterance before both runs so the rings do not start at slot 0.",
     level_note="Trusted: fork isolation (both runs start from the same pristine decoder image), the canonical record. full_utt is not part of the equality (its documentation promises potentially different results).",
     quick=dict(cases=200, maxlen=600, budget=100),
     thorough=dict(cases=3000, maxlen=600, budget=1200),
@@ -193,7 +193,7 @@ PROPS["C08"] = dict(
     harness="decode",
     level="exploration",
     technique="differential property-based testing over generated histories: the target utterance after a history of utterances / grammar switches / failed utterances / result queries vs the same utterance on a fresh decoder (isolated copy of the pristine process); repetition determinism; two-decoder interleavings vs solo runs",
-    level_text="Generated histories of 1-4 utterances (streaming, buffered, full_utt; zero audio; no hypothesis; grammar switched and switched back; partial and final lattice/N-best/JSON/alignment queries; set_cmn) followed by a target utterance whose channel-normalisation state is reset with decoder_set_cmn (no reset for full_utt with cmn=batch): the canonical record must equal the one of a fresh decoder, and running it twice gives the same record; chunk-level interleavings of two live decoders must give each decoder its solo record; get_cmn/set_cmn text is a fixpoint.",
+    level_text="Generated histories of 1-4 utterances (streaming, buffered, full_utt; zero audio; no hypothesis; grammar switched and switched back; partial and final lattice/N-best/JSON/alignment queries; set_cmn) followed by a target utterance whose channel-normalisation state is reset with decoder_set_cmn (no reset for full_utt with cmn=batch): the canonical record must equal the one of a fresh decoder, and running it twice gives the same record; chunk-level interleavings of two live decoders must give each decoder its solo record; get_cmn/set_cmn text is a fixpoint. A sibling utterance may share the target's grammar object (no reinstall) as well as its frame count; lattices are compared by an order-independent fingerprint of all nodes and links.",
     level_note="Trusted: fork isolation as the definition of 'fresh decoder' (same pristine image), the canonical record (hyp, score, segments with scores, frame counts, alignment, lattice size).",
     quick=dict(cases=50, maxlen=900, budget=80),
     thorough=dict(cases=2000, maxlen=900, budget=1500),
@@ -246,7 +246,7 @@ PROPS["C18"] = dict(
     wrap=["acmod_score"],
     level="exploration",
     technique="property-based testing with range/finiteness predicates over adversarial signal families; every frame handed to the scorer is inspected through --wrap=acmod_score; UBSan signed-overflow and implicit-truncation instrumentation on the scorer files",
-    level_text="Adversarial signals (digital silence, DC at the rails, full-scale squares incl. Nyquist, impulses, 1-LSB and full-scale noise, speech x 0, clipped speech, silence/noise alternation, float32 at and beyond +-1.0) through (a) the front end alone over generated configurations and (b) the decoder (streaming and full_utt, both scorer modes, large-magnitude cmninit strings; thorough tier: 30 s - 3 min utterances of forced alignment): every cepstral value and every dynamic-feature value reaching the scorer is finite, every (active) senone score is within range with the best normalised to 0, segment scores are non-positive and sum to a path score in [WORST_SCORE, 0], and the exported channel-normalisation text is finite and a fixpoint of import/export.",
+    level_text="Adversarial signals (digital silence, DC at the rails, full-scale squares incl. Nyquist, impulses, 1-LSB and full-scale noise, speech x 0, clipped speech, silence/noise alternation, float32 at and beyond +-1.0) through (a) the front end alone over generated configurations and (b) the decoder (streaming and full_utt, both scorer modes, large-magnitude cmninit strings; thorough tier: 30 s - 3 min utterances of forced alignment): every cepstral value and every dynamic-feature value reaching the scorer is finite, every (active) senone score is within range with the best normalised to 0, segment scores are non-positive and sum to a path score in [WORST_SCORE, 0], and the exported channel-normalisation text is finite and a fixpoint of import/export. Ten per cent of the decoder cases each run on a semi-continuous layout, on the general multi-stream scorer and on the PTM scorer with float mixture weights (layouts derived from en-us, DESIGN.md 9.9); the channel-normalisation text is also read in the middle of streamed utterances long enough for the live window to shift and compared with the mean in use.",
     level_note="Trusted: std::isfinite, the sanitizer instrumentation (signed-integer-overflow everywhere, implicit-signed-integer-truncation on ptm_mgau.c/s2_semi_mgau.c/ms_mgau.c/hmm.c). Front-end configurations are kept to those whose FFT resolves every mel filter (a coarser FFT is a separately keyed class).",
     quick=dict(cases=900, maxlen=300, budget=100),
     thorough=dict(cases=4000, maxlen=300, budget=1800),
@@ -262,7 +262,7 @@ PROPS["C17"] = dict(
     enumerate=True,
     exhaustive=True,
     technique="deterministic fault enumeration (missing / zero-length / truncation at every header byte and structural boundary / single-field corruption of every leading count and dimension word, checksum and header flags) plus seeded sampling of the remaining truncation lengths and byte flips; each fault in a forked child under ASan/UBSan",
-    level_text="For both bundled models and each file (mdef, means, variances, sendump, transition_matrices, feat_params.json, noisedict.txt, plus the repository's feature_transform) every enumerated fault is delivered through decoder_init with mmap on and off and, for mdef/means/variances/tmat, through the loader's *_s3file entry point on a heap copy of exactly the damaged length (so that reading outside the file's bytes is an ASan report): the child must return, initialisation must fail through its return value (or load a still self-consistent file and survive a short decode), truncated/empty/missing binary files must never be accepted, and the intact model must afterwards load and decode the reference utterance correctly in the same process.",
+    level_text="For both bundled models and each file (mdef, means, variances, sendump, transition_matrices, feat_params.json, noisedict.txt, plus the repository's feature_transform) every enumerated fault is delivered through decoder_init with mmap on and off and, for mdef/means/variances/tmat, through the loader's *_s3file entry point on a heap copy of exactly the damaged length (so that reading outside the file's bytes is an ASan report): the child must return, initialisation must fail through its return value (or load a still self-consistent file and survive a short decode), truncated/empty/missing binary files must never be accepted, and the intact model must afterwards load and decode the reference utterance correctly in the same process. Three layouts derived from en-us by tools/gen_models.py are enumerated as well (their own files only): a float mixture_weights file read by the PTM scorer, the same file plus a version 1.2 senone-to-codebook map served by the general scorer (ms_mgau / ms_senone), and a one-codebook semi-continuous layout (s2_semi_mgau).",
     level_note="Trusted: ASan/UBSan, the harness' header-end computation for the three file layouts. The enumerated sub-space (counts reported per run) is covered exhaustively; the remaining truncation lengths and byte flips are sampled by the generated campaign.",
     quick=dict(cases=25, maxlen=16, budget=100),
     thorough=dict(cases=600, maxlen=16, budget=1500),
@@ -277,7 +277,7 @@ PROPS["C09"] = dict(
     leaks=True,
     level="exploration",
     technique="stateful property-based testing: rapidcheck-generated API call histories in a 25-operation language, interpreted against one or two decoders created inside a forked child under ASan/UBSan with asserts on; a liveness-tracking interpreter, documented-return-value oracle, fixed follow-up utterance, and an explicit LeakSanitizer pass after the last reference is released",
-    level_text="Histories of 3-40 calls over decoder_set_jsgf_string / set_fsg / set_align_text (valid and must-refuse arguments), decoder_add_word, start_utt / process_int16 / process_float32 (0 to 70,000 samples, no_search and full_utt flags) / end_utt, hyp, prob, seg iterators (partly walked, abandoned), N-best with segmentations, lattice (walk, bestpath, posterior, retain past the utterance), alignment iterators over three levels, result JSON, timing and cmn accessors, lookup, reinit / reinit_feat, retain/free pairs, set_logfile(NULL), freeing a decoder at any point including mid-utterance; standalone configuration objects (config_set_str/int/float/bool with matching and mismatching types, unknown and empty keys, NULL values, typed getters, unset, parse_json of valid and invalid text, serialize_json which must read back, retain/free); decoder_reinit with a new configuration object (valid English or French model, missing model directory, missing or unreadable dictionary, invalid loglevel, grammars named in the configuration including one with an unknown word) after which a failed decoder may only be reinitialised or freed; alignments retained across utterances and reinitialisation; lattice forward and reverse edge traversal, posterior pruning with beams down to 0 followed by bestpath; decoder_set_jsgf_file on a valid file, a missing file, a non-JSGF file and a directory. 55% of histories follow the protocol; 45% may call anything in any state. Each call's return value is compared with the documented one where the documentation fixes it; after the history a fixed utterance must still align correctly; after every object is released __lsan_do_leak_check must find nothing.",
+    level_text="Histories of 3-40 calls over decoder_set_jsgf_string / set_fsg / set_align_text (valid and must-refuse arguments), decoder_add_word, start_utt / process_int16 / process_float32 (0 to 70,000 samples, no_search and full_utt flags) / end_utt, hyp, prob, seg iterators (partly walked, abandoned), N-best with segmentations, lattice (walk, bestpath, posterior, retain past the utterance), alignment iterators over three levels, result JSON, timing and cmn accessors, lookup, reinit / reinit_feat, retain/free pairs, set_logfile(NULL), freeing a decoder at any point including mid-utterance; standalone configuration objects (config_set_str/int/float/bool with matching and mismatching types, unknown and empty keys, NULL values, typed getters, unset, parse_json of valid and invalid text, serialize_json which must read back, retain/free); decoder_reinit with a new configuration object (valid English or French model, missing model directory, missing or unreadable dictionary, invalid loglevel, grammars named in the configuration including one with an unknown word) after which a failed decoder may only be reinitialised or freed; alignments retained across utterances and reinitialisation; lattice forward and reverse edge traversal, posterior pruning with beams down to 0 followed by bestpath; decoder_set_jsgf_file on a valid file, a missing file, a non-JSGF file and a directory. 55% of histories follow the protocol; 45% may call anything in any state. Each call's return value is compared with the documented one where the documentation fixes it; after the history a fixed utterance must still align correctly; after every object is released __lsan_do_leak_check must find nothing. Reinitialisation configurations include the three derived model layouts of DESIGN.md 9.9.",
     level_note="Trusted: ASan/UBSan/LeakSanitizer, the fork runner's death classification, and the interpreter's own liveness bookkeeping (iterators are closed before calls that replace the result they walk). Object pointers are always valid (the property quantifies over valid pointers). 'Every call returns': a history still running at ten times the 60 s per-case limit is a violation (none seen).",
     quick=dict(cases=480, maxlen=400, budget=120),
     thorough=dict(cases=16000, maxlen=600, budget=1800),
